@@ -103,6 +103,33 @@ void h_gadget_rows(void) {
 }
 #endif
 
+#ifdef H_ADDMUH
+/* tGswAddMuH: row (bloc,i) receives message[j]*h[i] on coefficient j of polynomial `bloc`, for every j, and nothing else changes.
+ * N symbolic (loop contracts on all three loops); watched coordinate (row, polynomial, coefficient) arbitrary. */
+int32_t g_b, g_i, g_q, g_j; uint32_t g_w0, g_prod;
+#include "c_gadget.h"
+#include "extracted.inc"
+static TGswSample G; static TLweSample rows[KPL]; static TLweSample *blocs[VERIF_K + 1]; static TorusPolynomial polys[KPL][VERIF_K + 1];
+void h_tGswAddMuH(void) {
+    TLweParams tp; TGswParams gp; *(const TLweParams **)&gp.tlwe_params = &tp; *(int32_t *)&gp.kpl = KPL; *(int32_t *)&gp.l = VERIF_L; *(int32_t *)&tp.k = VERIF_K;
+    int32_t N; __CPROVER_assume(N >= 1 && N <= VERIF_NMAX); *(int32_t *)&tp.N = N;
+    Torus32 h[VERIF_L]; gp.h = h;
+    for (int r = 0; r < KPL; r++) { rows[r].a = polys[r]; rows[r].b = polys[r] + VERIF_K; for (int q = 0; q <= VERIF_K; q++) polys[r][q].coefsT = verif_alloc((size_t)N * sizeof(Torus32)); }
+    for (int b = 0; b <= VERIF_K; b++) blocs[b] = rows + b * VERIF_L;
+    G.all_sample = rows; G.bloc_sample = blocs;
+    IntPolynomial msg; *(int32_t *)&msg.N = N; msg.coefs = verif_alloc((size_t)N * sizeof(int32_t));
+    int gr, gq; int32_t gj; __CPROVER_assume(gr >= 0 && gr < KPL && gq >= 0 && gq <= VERIF_K && gj >= 0 && gj < N);
+    g_b = gr / VERIF_L; g_i = gr % VERIF_L; g_q = gq; g_j = gj;
+    g_w0 = U32(polys[gr][gq].coefsT[gj]); g_prod = U32(msg.coefs[gj]) * U32(h[g_i]);
+    int32_t m_old = msg.coefs[gj]; Torus32 h_old = h[g_i];
+    tGswAddMuH(&G, &msg, &gp);
+    __CPROVER_assert(U32(polys[gr][gq].coefsT[gj]) == g_w0 + ((gq == gr / VERIF_L) ? g_prod : 0u),
+                     "row (bloc,i): message[j]*h[i] is added to coefficient j of polynomial bloc (block diagonal), once, and nothing else changes");
+    __CPROVER_assert(h[g_i] == h_old && msg.coefs[gj] == m_old, "gadget weights and message untouched");
+    VERIF_REACH();
+}
+#endif
+
 #ifdef H_CONVERT
 static int n_conv; static const TGswSample *c_src; static TGswSampleFFT *c_dst; static const TLweParams *c_tp;
 void tLweToFFTConvert(TLweSampleFFT *result, const TLweSample *source, const TLweParams *params) { if (result != c_dst->all_samples + n_conv || source != c_src->all_sample + n_conv || params != c_tp) bad++; n_conv++; }
